@@ -1234,7 +1234,8 @@ def bounded(seq, bounds, index=None, clip=True, nearest=True):
     if clip:
         if nearest: # clip at closest bounds
             seq_at = seq[at]
-            seq[at] = _clip(seq_at, *(b[abs(seq_at.reshape(-1,1)-b).argmin(axis=1)] for b in bounds))
+            near = minimum(*(abs(seq_at.reshape(-1,1)-b) for b in bounds)).argmin(axis=1) # the nearest interval
+            seq[at] = _clip(seq_at, bounds[0][near], bounds[1][near])
         else: # clip in randomly selected interval
             picks = choice(len(bounds.T), size=at.shape)
             seq[at] = _clip(seq[at], bounds[0][picks], bounds[1][picks])
